@@ -47,6 +47,20 @@ def curve_checks(name, rng, report):
             d = (g.pw_gamma[i](x + h) - g.pw_gamma[i](x - h)) / (2 * h)
             report(name, "arc-length-on-every-piece", abs(float(np.linalg.norm(d)) - 1) < 1e-8, dict(x=x))
         n += 2
+    # vectorised evaluation: the value at a parameter must not depend on the other entries of the array or on their order
+    # (ascending, descending, shuffled, with repeated break points)
+    base = [x for x in xs if 0 < x < L]
+    single = {x: g.eval(np.array([x]))[:, 0] for x in base}
+    for kind in ("ascending", "descending", "shuffled"):
+        arr = list(base)
+        if kind == "descending":
+            arr.reverse()
+        elif kind == "shuffled":
+            rng.shuffle(arr)
+        ev = g.eval(np.array(arr))
+        ok = all(np.allclose(ev[:, k], single[x], atol=1e-12) for k, x in enumerate(arr))
+        report(name, "eval-of-an-array-equals-pointwise-eval/" + kind, ok, dict(n=len(arr)))
+        n += 1
     return n
 
 
